@@ -452,6 +452,12 @@ func (c01) Run(c core.Case, w *core.Worker) core.Result {
 	defer io.Install()()
 	s := core.NewSession(dir, sc.Cfg, &res)
 	s.IO = io
+	// every other case hands keys and values over in buffers it reuses and overwrites after
+	// each call returns (the way a caller with a scratch buffer does): an engine that keeps
+	// the caller's slice in its index then loses or mixes up acknowledged keys (s10-M01)
+	if s.ReuseBuf = c.Index%2 == 1; s.ReuseBuf {
+		res.Add("cases_with_reused_caller_buffers", 1)
+	}
 	r := core.NewRng(c.Seed)
 	g := &core.Gen{R: r, Keys: core.GenKeys(r, sc.NKeys), Cfg: sc.Cfg, NoRestart: true, EndOff: io.ActiveEnd}
 	if !s.Open() {
